@@ -3,7 +3,7 @@ C14 — start-up rebalancing moves every record and shard to its owner without l
 Property theorems only (model: Model.lean; proofs: Lemmas / Invariant / Converge / Pinned).
 `FactsC14.lean` is regenerated from cluster/sync.go and cluster/rpchandlers.go on every run.
 -/
-import SemaModel.C14.Pinned
+import SemaModel.C14.Witness
 import SemaModel.Generated.FactsC14
 namespace Sema.C14
 
@@ -44,23 +44,6 @@ example : messages 2 [] = [(0, [])] := by decide
 
 /-! ## no loss -/
 
-/-- the cluster before the synchronisation: every record / shard file that exists is an original, every
-original exists, a shard is on one node only, nothing is in flight -/
-structure Init (ro fo : K → Option Content) (s : St N K) : Prop where
-  r1 : ∀ n k v, s.recs n k = some v → ro k = some v
-  r2 : ∀ k v, ro k = some v → ∃ n, s.recs n k = some v
-  f1 : ∀ n k c, s.files n k = some c → fo k = some c
-  f2 : ∀ k c, fo k = some c → ∃ n, s.files n k = some c
-  f4 : ∀ n n' k, (s.files n k).isSome → (s.files n' k).isSome → n = n'
-  v1 : ∀ n k, s.rconf n k = false
-  v2 : ∀ n k, s.fph n k = .idle
-
-omit [DecidableEq N] [DecidableEq K] in
-theorem Init.inv {ro fo} {s : St N K} (cfg : Cfg N K) (h : Init ro fo s) : Inv cfg ro fo s :=
-  ⟨h.r1, h.r2, fun n k hc => by simp [h.v1 n k] at hc, fun n k c hc _ => h.f1 n k c hc, h.f2,
-   fun n k hc => by simp [h.v2 n k] at hc, fun n n' k _ _ a b => h.f4 n n' k a b,
-   fun n k hs => by obtain ⟨c, hc⟩ := Option.isSome_iff_exists.mp hs; simp [h.f1 n k c hc]⟩
-
 /-- In EVERY reachable state — any interleaving of the nodes' `Sync` runs, replies lost, chunks
 corrupted in transit, senders or receivers failing or being killed before / after any chunk and
 between the phases, any number of restarts, repaired or pinned receiver — every record and every
@@ -100,23 +83,6 @@ theorem C14_remove_only_after_confirm (cfg : Cfg N K) (hs : SumOK cfg) (ro fo : 
     exact ⟨a, d, c, by rw [hv, i.f1 _ _ _ hv a]⟩
 
 /-! ## convergence -/
-
-/-- every record and shard file is exactly at its routing owner, byte-identical, and nowhere else -/
-def Placed (cfg : Cfg N K) (ro fo : K → Option Content) (s : St N K) : Prop :=
-  (∀ n k, s.recs n k = if n = cfg.owner k then ro k else none) ∧
-  (∀ n k, s.files n k = if n = cfg.fowner k then fo k else none)
-
-/-- "a later synchronisation completes the move": from any state reachable by interrupted rounds, one
-failure-free round (the nodes of `order` run `Sync` one after the other, in any order) puts
-everything at its owner and no `Sync` fails.  Side conditions: shard files are non-empty (bbolt
-files are); the server list / key lists cover what exists; every node that holds something runs. -/
-def Converges (cfg : Cfg N K) : Prop :=
-  ∀ (ro fo : K → Option Content) (nodes : List N) (rkeys fkeys : List K) (order : List N) (s0 s : St N K),
-    (∀ k c, fo k = some c → c ≠ []) → Covers cfg ro fo nodes rkeys fkeys →
-    Init ro fo s0 → Reachable cfg s0 s →
-    (∀ n k, (s.recs n k).isSome ∨ (s.files n k).isSome → n ∈ order) →
-    Placed cfg ro fo (round cfg nodes rkeys fkeys order s) ∧
-      ∀ n ∈ order, (round cfg nodes rkeys fkeys order s).failed n = false
 
 /-- Repaired receiver (`O_TRUNC` at chunk 0): convergence holds, for every routing function, chunk
 size > 0, collision-free checksum, number of nodes, and every history of interrupted rounds. -/
@@ -208,87 +174,6 @@ theorem C14_pinned_stuck (cfg : Cfg N K) (hs : SumOK cfg) (htr : cfg.trunc0 = fa
     ∃ j', j' ≠ [] ∧ j'.length = j.length + (r + 1) * c.length ∧
       (retries cfg n k (r + 1) s).files (cfg.fowner k) k = some j' :=
   retries_pinned cfg hs htr hcs n k c hne hc r j s hj hf hd
-
-/-! the witness: two nodes, shard 7 = [1,2,3] on node 0, owner node 1, chunk size 2; the transfer is
-interrupted after chunk 0 ("fail at chunk 1"), then a failure-free round runs. -/
-def wSum (c : Content) : Nat := enc c + 1
-def wCfg (trunc : Bool) : Cfg Nat Nat := { owner := fun _ => 1, fowner := fun _ => 1, cs := 2, trunc0 := trunc, sum := wSum }
-def wS0 : St Nat Nat :=
-  { recs := fun n k => if n = 0 ∧ k = 5 then some [9] else none,
-    files := fun n k => if n = 0 ∧ k = 7 then some [1, 2, 3] else none,
-    rconf := fun _ _ => false, fph := fun _ _ => .idle, failed := fun _ => false }
-def wRo : Nat → Option Content := fun k => if k = 5 then some [9] else none
-def wFo : Nat → Option Content := fun k => if k = 7 then some [1, 2, 3] else none
-/-- `Sync` of node 0 interrupted at chunk 1 of shard 7 -/
-def wS1 (trunc : Bool) : St Nat Nat := syncNode (wCfg trunc) { failAt := some (7, 1) } [0, 1] [5] [7] 0 wS0
-
-theorem wSumOK (t : Bool) : SumOK (wCfg t) :=
-  ⟨fun a b h => enc_inj a b (by simp only [wCfg, wSum] at h; omega), by simp [wCfg, wSum]⟩
-
-theorem wInit : Init wRo wFo wS0 := by
-  refine ⟨?_, ?_, ?_, ?_, ?_, fun _ _ => rfl, fun _ _ => rfl⟩
-  · intro n k v h
-    simp only [wS0] at h
-    split at h
-    · rename_i hh; simp [wRo, hh.2, ← h]
-    · cases h
-  · intro k v h
-    simp only [wRo] at h
-    split at h
-    · rename_i hh; exact ⟨0, by simp [wS0, hh, ← h]⟩
-    · cases h
-  · intro n k c h
-    simp only [wS0] at h
-    split at h
-    · rename_i hh; simp [wFo, hh.2, ← h]
-    · cases h
-  · intro k c h
-    simp only [wFo] at h
-    split at h
-    · rename_i hh; exact ⟨0, by simp [wS0, hh, ← h]⟩
-    · cases h
-  · intro n n' k a b
-    simp only [wS0] at a b
-    split at a
-    · split at b
-      · rename_i h1 h2; rw [h1.1, h2.1]
-      · cases b
-    · cases a
-
-def wLabels : List (Label Nat Nat) := [.restart 0, .rsend 0 1 [5] true, .rdelete 0 [5], .fchunk 0 7 none, .fail 0]
-
-theorem wS1_eq (t : Bool) : wS1 t = run (wCfg t) wLabels wS0 := by cases t <;> rfl
-
-theorem wReach (t : Bool) : Reachable (wCfg t) wS0 (wS1 t) := by
-  rw [wS1_eq]; exact reachable_run _ _ .init
-
-theorem wCovers (t : Bool) : Covers (wCfg t) wRo wFo [0, 1] [5] [7] := by
-  refine ⟨?_, ?_, fun _ _ => by simp [wCfg]⟩
-  · intro k h; simp only [wRo] at h; split at h <;> simp_all
-  · intro k h; simp only [wFo] at h; split at h <;> simp_all
-
-theorem wNonempty : ∀ k c, wFo k = some c → c ≠ [] := by
-  intro k c hk
-  simp only [wFo] at hk
-  split at hk
-  · cases hk; simp
-  · cases hk
-
-theorem wHolders (t : Bool) : ∀ n k, ((wS1 t).recs n k).isSome ∨ ((wS1 t).files n k).isSome → n ∈ [0, 1] := by
-  have hs : StepsBy (wCfg t) 0 wS0 (wS1 t) := by
-    rw [wS1_eq]
-    exact stepsBy_run _ (by intro l hl; simp [wLabels] at hl; rcases hl with h | h | h | h | h <;> (subst h; rfl)) _ _ (.refl _)
-  intro n k h
-  by_cases e : n = 1
-  · simp [e]
-  · by_cases e0 : n = 0
-    · simp [e0]
-    · exfalso
-      rcases h with h | h
-      · have : (wS1 t).recs n k = none := hs.recs_none n k (by simpa [wCfg] using e) (by simp [wS0, e0])
-        simp [this] at h
-      · have : (wS1 t).files n k = none := hs.files_none n k (by simpa [wCfg] using e) (by simp [wS0, e0])
-        simp [this] at h
 
 /-- after the interruption the owner holds the partial file `[1,2]`; with the pinned receiver the
 retry appends `[1,2,3]` to it, the sender's `Sync` fails and the shard stays where it was -/
